@@ -1,5 +1,6 @@
 """C13 — JSON Patch application follows RFC 6902 and is safe on arbitrary patch documents."""
 import copy
+import os
 import random
 
 from vflib import core, build
@@ -348,6 +349,10 @@ def run(tier, seed):
     nconf, nrob = (100000, 60000) if tier == "quick" else (1000000, 1000000)
     sh = core.parallel(shard_fn, seed=seed, tier=tier, exe=bdir + "/jcdrv", nconf=nconf, nrob=nrob)
     chk.absorb(sh)
+    if tier == "thorough":
+        fdir = build.build("fuzz")
+        chk.absorb(core.run_fuzz(fdir + "/fuzz_patch", PID, runs=500000, seed=seed, jobs=16, max_len=400, dict_path=os.path.join(core.VERIF, "harness", "patch.dict")))
+        chk.extra["fuzz"] = "libFuzzer target fuzz_patch (document NUL patch), 16 jobs x 5*10^5 runs"
     chk.rule = ("(a) conformance: target documents with adversarial member names; patches of 1-8 operations generated against the evolving reference document (live paths; escaped names; array begin/middle/end/'-'; "
                 "from a proper prefix of path; string-prefix-but-unrelated names; moves within one array both ways; copy/add followed by modification of the new location; one deliberately failing operation "
                 "at a random index in 40%); in place and copy_from. rc, failure index, result dump, patch dump before/after, copy_from dump compared with an RFC 6902 evaluator. "
